@@ -220,7 +220,8 @@ theorem classifySCION_accept (cfg : Cfg) (sc : ScionCtx) (prev : Prev) (req : Re
     (d : ScionDgram) (a : Accepted) (h : classifySCION cfg sc prev req cTx1 cRx d = .accept a) :
     d.decodeOk = true ∧ 2 ≤ d.decoded.length ∧ lastLayer d.decoded = some .udp ∧
     d.udpLength ≤ d.bufLen ∧
-    d.srcIA = sc.remoteIA ∧ d.srcHost = sc.remoteHost ∧ d.dstIA = sc.localIA ∧ d.dstHost = sc.localHost ∧
+    d.srcIA = sc.remoteIA ∧ equalsIP d.srcHost sc.remoteHost = true ∧
+    d.dstIA = sc.localIA ∧ equalsIP d.dstHost sc.localHost = true ∧
     (∀ au, (d.decoded.length ≥ 3 && secondLast d.decoded == some .e2e) = true → sc.keyAvailable = true →
         d.authOpt = some au → au.spi = spiServer → au.alg = algCMAC → au.macOk = true) ∧
     ntpStage cfg prev req cTx1 (scionRxTime d cTx1 cRx) d.payload = .accept a := by
@@ -239,14 +240,16 @@ theorem classifySCION_accept (cfg : Cfg) (sc : ScionCtx) (prev : Prev) (req : Re
   rename_i h4
   split at h
   · cases h
+  split at h
+  · cases h
   rename_i h5
-  simp at h1 h2 h3 h5
+  simp [addrCheck, addrValid] at h1 h2 h3 h5
   have hlast : lastLayer d.decoded = some .udp := by
     by_cases hu : lastLayer d.decoded = some .udp
     · exact hu
     · exact absurd (h2.2 hu) h3
   dsimp only at h
-  refine ⟨h1, h2.1, hlast, by omega, h5.1.1, h5.1.2, h5.2.1, h5.2.2, ?_, ?_⟩
+  refine ⟨h1, h2.1, hlast, by omega, h5.1, h5.2.1, h5.2.2.1, h5.2.2.2, ?_, ?_⟩
   · intro au he hk hau hspi halg
     rw [he, hk, hau] at h
     simp only [Bool.and_self, if_true] at h
